@@ -57,30 +57,8 @@ func checkC13(r *core.Run, p *core.Program) {
 	r.Floor("C13.table", "cells compared", cells, 2*19+2*21)
 
 	// ---- guards
-	want := map[string][]string{
-		"MarkObject": {"if($newLocalReferenceCount>$_this.config.Rules.MaxLocalReferenceCount){reject}; if($newLocalReferenceCount>$_this.config.Rules.MaxMarkerCount){reject}; if($exists){reject}; ++($_this.LocalReferenceCount); set($_this.markedObjects[$id]=$dataType); if($exists){?pure:delete($_this.forwardLocalReferences,$id); if($allowedDataTypes&$dataType==0){reject}}"},
-		"LocalReferenceObject": {"if($exists){if($dataType&$allowedDataTypes==0){reject}; return}; if($current==0){let($current=$allowedDataTypes)}else{let($current&=$allowedDataTypes)}; set($_this.forwardLocalReferences[$idAsString]=$current)"},
-		"ValidateIdentifier":    {"if(?pure:len($data)==0){reject}; if(?pure:len($data)>?pure:conv($_this.config.Rules.MaxIdentifierLength)){reject}; if(!internal/chars.IsIdentifierSafe($data)){reject}"},
-		"BeginMarkerKeyable":    {"set($_this.markerID=string($id)); ctx.stackRule(markedObjectKeyableRule,$dataType,noObjectCount); set($_this.CurrentEntry.MarkerID=$_this.markerID)"},
-		"BeginMarkerAnyType":    {"set($_this.markerID=string($id)); ctx.stackRule(markedObjectAnyTypeRule,$dataType,noObjectCount); set($_this.CurrentEntry.MarkerID=$_this.markerID)"},
-		"MarkEndedContainer":    {"set($_this.markerID=$_this.CurrentEntry.MarkerID); ctx.MarkObject($dataType)"},
-		"LocalReferenceKeyable": {"ctx.LocalReferenceObject($identifier,AllowKeyable)"},
-		"LocalReferenceAnyType": {"ctx.LocalReferenceObject($identifier,AllowAny)"},
-	}
-	for _, name := range sortedKeys(want) {
-		got, f := ctxSummary(p, a, name)
-		if f == nil {
-			r.Undecided("C13.guards", "rules.Context."+name)
-			continue
-		}
-		ok := false
-		for _, w := range want[name] {
-			if w == got {
-				ok = true
-			}
-		}
-		r.Check("C13.guards", "rules.Context."+name, f.Decl.Pos(), ok, fmt.Sprintf("Context.%s does `%s`; required `%s`", name, got, strings.Join(want[name], "` or `")))
-	}
+	checkCtxPrimitives(r, p, a, "C13.guards", "MarkObject", "LocalReferenceObject", "ValidateIdentifier", "BeginMarkerKeyable", "BeginMarkerAnyType",
+		"MarkEndedContainer", "LocalReferenceKeyable", "LocalReferenceAnyType")
 	if got, f := ctxSummary(p, a, "EndDocument"); f != nil {
 		ok := strings.HasPrefix(got, "if(?pure:len($_this.forwardLocalReferences)>0){") && strings.Contains(got, "reject}")
 		r.Check("C13.guards", "rules.Context.EndDocument|unresolved-references-reject", f.Decl.Pos(), ok, "EndDocument must reject when forward references are unresolved; it does `"+got+"`")
@@ -277,6 +255,75 @@ func checkReferenceFiller(r *core.Run, p *core.Program, a *analysis, rule string
 			"a local reference delivered to this builder is neither rejected, delegated, nor registered with the reference filler: the reference is silently dropped and never replaced by the marked value")
 	}
 	r.Floor(rule, "builder types with BuildFromLocalReference", n, 50)
+
+	// late binding: a setter queued for a forward reference runs after the container may have grown. In a builder
+	// whose container is appended to (reflect.Append reallocates), the closure handed to NotifyLocalReference must not
+	// capture an element obtained with Index() before the closure runs; it has to re-resolve the element when called.
+	growable := map[*types.TypeName]bool{}
+	for _, f := range funcsOf(pkg) {
+		rn := recvNamed(f.Obj)
+		if rn == nil {
+			continue
+		}
+		inspectCalls(info, f.Decl.Body, func(call *ast.CallExpr, cal *types.Func) {
+			if cal != nil && cal.Pkg() != nil && cal.Pkg().Path() == "reflect" && (cal.Name() == "Append" || cal.Name() == "AppendSlice") {
+				growable[rn.Obj()] = true
+			}
+		})
+	}
+	nClos := 0
+	for _, f := range funcsOf(pkg) {
+		rn := recvNamed(f.Obj)
+		inspectCalls(info, f.Decl.Body, func(call *ast.CallExpr, cal *types.Func) {
+			if cal != ctxNotify || len(call.Args) != 2 {
+				return
+			}
+			lit, ok := call.Args[1].(*ast.FuncLit)
+			if !ok {
+				return
+			}
+			nClos++
+			if rn == nil || !growable[rn.Obj()] {
+				return
+			}
+			// captured variables used in the closure
+			bad := ""
+			ast.Inspect(lit.Body, func(nd ast.Node) bool {
+				id, ok := nd.(*ast.Ident)
+				if !ok {
+					return true
+				}
+				v, ok := info.Uses[id].(*types.Var)
+				if !ok || v.Pos() >= lit.Pos() || v.Pos() < f.Decl.Pos() || !typeIs(v.Type(), "reflect", "Value") {
+					return true
+				}
+				// definition of v in the enclosing function
+				ast.Inspect(f.Decl.Body, func(m ast.Node) bool {
+					as, ok := m.(*ast.AssignStmt)
+					if !ok {
+						return true
+					}
+					for i, lhs := range as.Lhs {
+						if lid, ok := lhs.(*ast.Ident); ok && info.ObjectOf(lid) == v && i < len(as.Rhs) {
+							ast.Inspect(as.Rhs[i], func(k ast.Node) bool {
+								if c, ok := k.(*ast.CallExpr); ok {
+									if cc := callee(info, c); cc != nil && cc.Name() == "Index" && typeIs(recvType(cc), "reflect", "Value") {
+										bad = v.Name()
+									}
+								}
+								return true
+							})
+						}
+					}
+					return true
+				})
+				return true
+			})
+			r.Check(rule, f.Name()+"|setter-resolves-element-late", call.Pos(), bad == "",
+				"the setter queued for a forward reference captures the element "+bad+" obtained with Index() before the container can grow; after a reallocating append the setter writes into the old backing array and the reference is never filled in")
+		})
+	}
+	r.Floor(rule, "setter closures handed to NotifyLocalReference", nClos, 5)
 
 	// filler shape
 	if f := findFn(p, "builder", "ReferenceFiller.NotifyLocalReference"); f == nil {
